@@ -162,6 +162,12 @@ def probe_fixed_points(D, N, order, seed):
         ("SwiftHohenberg(r=0.3,k=1.4):u=0", rea.SwiftHohenberg(D, L * 4, N, dt, reactivity=0.3, critical_number=1.4, order=order), [0.0]),
         ("FisherKPP(r=0.6):u=1", rea.FisherKPP(D, L, N, dt, reactivity=0.6, diffusivity=0.03, order=order), [1.0]),
         ("AllenCahn(c1=1.5,c3=-0.5):u=sqrt3", rea.AllenCahn(D, L, N, dt, first_order_coefficient=1.5, third_order_coefficient=-0.5, order=order), [np.sqrt(3.0)]),
+        # growth*dt EXACTLY +-1 on the mean mode (a contour of radius 1 around it passes closest to the removable
+        # singularity of the phi functions): the equilibria are fixed points like anywhere else
+        ("FisherKPP(r*dt=1):u=1", rea.FisherKPP(D, L, N, dt, reactivity=1.0 / dt, order=order), [1.0]),
+        ("FisherKPP(r*dt=-1):u=1", rea.FisherKPP(D, L, N, dt, reactivity=-1.0 / dt, order=order), [1.0]),
+        ("AllenCahn(c1*dt=1):u=sqrt(-c1/c3)", rea.AllenCahn(D, L, N, dt, first_order_coefficient=1.0 / dt, third_order_coefficient=-4.0, order=order), [np.sqrt(1.0 / dt / 4.0)]),
+        ("AllenCahn(c1*dt=-1):u=sqrt(-c1/c3)", rea.AllenCahn(D, L, N, dt, first_order_coefficient=-1.0 / dt, third_order_coefficient=4.0, order=order), [-np.sqrt(1.0 / dt / 4.0)]),
         ("Burgers:const", st.Burgers(D, L, N, dt, order=order), list(rng.normal(size=D))),
         ("KuramotoSivashinsky:const", st.KuramotoSivashinsky(D, L * 6, N, dt, order=order), [0.6]),
         ("KortewegDeVries:const", st.KortewegDeVries(D, L * 3, N, dt, order=order), list(rng.normal(size=D))),
